@@ -349,6 +349,9 @@ func genCompose(r *rand.Rand) *scn.Scenario {
 		sc.Step = int64(1 + r.Intn(5))
 		n := int64([]int{1, 2, 5, 9, 10, 11, 12, 20, 21, 25, 35}[r.Intn(11)]) // 1: a range query of one step
 		sc.End = sc.Start + (n-1)*sc.Step
+		if sc.Step >= 2 && r.Intn(3) == 0 {
+			sc.End += 1 + int64(r.Intn(int(sc.Step)-1)) // the window ends after its last step
+		}
 	}
 	return sc
 }
